@@ -23,6 +23,8 @@ def Prim.wf : Prim → Val → Prop
   | .bytes17 ext, v => ∃ b, v = .bytes b ∧ writeBytes17Ok ext b = true
   | .fixed n, v => ∃ b, v = .bytes b ∧ b.length = n
   | .key, v => ∃ k : Key, v = .pair (.bytes k.ns) (.bytes k.val) ∧ wfKey k
+  | .minKey, v => ∃ k : Key, v = .pair (.bytes k.ns) (.bytes k.val) ∧ k.ns.all nsCharOk = true ∧
+      k.val.all valCharOk = true ∧ k.ns ≠ [] ∧ wfString (minimalKey k)
   | .blob len, v => ∃ b, v = .bytes b ∧ ∀ rest, len (b ++ rest) = some b.length
 
 def Schema.wf : Schema → Val → Prop
@@ -34,7 +36,8 @@ def Schema.wf : Schema → Val → Prop
   | .optD d s, v => v = d ∨ (v ≠ d ∧ wf s v)
   | .arr _ max s, v => ∃ xs : List Val, v = Val.ofList xs ∧ (∀ x ∈ xs, wf s x) ∧ xs.length < 2 ^ 31 ∧
       overMax max xs.length = false
-  | .sw tag body, v => ∃ t x, v = .pair (.int t) x ∧ tag.wf (.int t) ∧ wf (body t) x
+  | .sw tag n body dflt, v => ∃ t x, v = .pair (.int t) x ∧ tag.wf (.int t) ∧
+      (if h : 0 ≤ t ∧ t.toNat < n then wf (body ⟨t.toNat, h.2⟩) x else wf dflt x)
 
 def PSchema.wf (ps : PSchema) (v : Val) : Prop :=
   match ps.tail with
@@ -42,6 +45,8 @@ def PSchema.wf (ps : PSchema) (v : Val) : Prop :=
   | .rest max => ∃ x r, v = .pair x (.bytes r) ∧ ps.body.wf x ∧ overMax max r.length = false
 
 /-! ## leaves -/
+
+theorem getInt_int (i : Int) : (Val.int i).getInt = i := rfl
 
 theorem elems_ofList (xs : List Val) : (Val.ofList xs).elems = xs := by
   induction xs with
@@ -53,6 +58,28 @@ theorem bytes17Ok_le (ext : Bool) (b : Bytes) (h : writeBytes17Ok ext b = true) 
   have hf : 32767 ≤ forgeMaxArrayLength := by decide
   unfold writeBytes17Ok at h
   cases ext <;> simp at h <;> omega
+
+theorem splitColon_none (s : Bytes) (h : s.all valCharOk = true) : splitColon s = none := by
+  induction s with
+  | nil => rfl
+  | cons a t ih =>
+    simp only [List.all_cons, Bool.and_eq_true] at h
+    have ha : a ≠ 58 := by intro hc; subst hc; exact absurd h.1 (by decide)
+    simp only [splitColon, ha, if_false, ih h.2]
+
+theorem parseKey_minimal (k : Key) (hns : k.ns.all nsCharOk = true) (hval : k.val.all valCharOk = true)
+    (hne : k.ns ≠ []) : parseKey (minimalKey k) = k := by
+  unfold minimalKey
+  by_cases hm : k.ns = minecraftNs
+  · rw [if_pos hm]; unfold parseKey; rw [splitColon_none _ hval]
+    cases k; simp_all
+  · rw [if_neg hm]; unfold parseKey keyString
+    rw [List.append_assoc, List.singleton_append, splitColon_ns k.ns k.val hns]
+    have : k.ns.isEmpty = false := by
+      cases hk : k.ns with
+      | nil => exact absurd hk hne
+      | cons a t => rfl
+    simp [this]
 
 theorem prim_RT (p : Prim) : RT p.enc p.dec p.wf := by
   intro v rest h
@@ -102,12 +129,63 @@ theorem prim_RT (p : Prim) : RT p.enc p.dec p.wf := by
   | key =>
     obtain ⟨k, rfl, hk⟩ := h
     simp only [Prim.enc, Prim.dec, Val.fst, Val.snd, Val.getBytes, key_RT k rest hk, Prim.mapRd]
+  | minKey =>
+    obtain ⟨k, rfl, h1, h2, h3, h4⟩ := h
+    simp only [Prim.enc, Prim.dec, Val.fst, Val.snd, Val.getBytes, string_RT _ rest h4, Prim.mapRd,
+      parseKey_minimal k h1 h2 h3]
   | blob len =>
     obtain ⟨b, rfl, hb⟩ := h
     simp only [Prim.enc, Prim.dec, Val.getBytes, hb rest]
     simp
 
 /-! ## the interpreter -/
+
+theorem encode_sw (tag : Prim) (n : Nat) (body : Fin n → Schema) (dflt : Schema) (v : Val) :
+    (Schema.sw tag n body dflt).encode v = tag.enc v.fst ++ (Schema.pick n body dflt v.fst.getInt).encode v.snd := by
+  simp only [Schema.encode, Schema.pick]; split <;> rfl
+
+theorem encOk_sw (tag : Prim) (n : Nat) (body : Fin n → Schema) (dflt : Schema) (v : Val) :
+    (Schema.sw tag n body dflt).encOk v = (tag.encOk v.fst && (Schema.pick n body dflt v.fst.getInt).encOk v.snd) := by
+  simp only [Schema.encOk, Schema.pick]; split <;> rfl
+
+theorem decode_sw (tag : Prim) (n : Nat) (body : Fin n → Schema) (dflt : Schema) (bs : Bytes) :
+    (Schema.sw tag n body dflt).decode bs =
+      match tag.dec bs with
+      | .error e => .error e
+      | .ok (t, r) => match (Schema.pick n body dflt t.getInt).decode r with
+        | .error e => .error e
+        | .ok (x, r') => .ok (.pair t x, r') := by
+  simp only [Schema.decode, Schema.pick]
+  cases tag.dec bs with
+  | error e => rfl
+  | ok p =>
+    obtain ⟨t, r⟩ := p
+    simp only
+    by_cases hc : 0 ≤ t.getInt ∧ t.getInt.toNat < n
+    · simp only [dif_pos hc]; rfl
+    · simp only [dif_neg hc]; rfl
+
+theorem wf_sw (tag : Prim) (n : Nat) (body : Fin n → Schema) (dflt : Schema) (v : Val) :
+    (Schema.sw tag n body dflt).wf v ↔
+      ∃ t x, v = .pair (.int t) x ∧ tag.wf (.int t) ∧ (Schema.pick n body dflt t).wf x := by
+  simp only [Schema.wf, Schema.pick]
+  constructor
+  · rintro ⟨t, x, h1, h2, h3⟩
+    refine ⟨t, x, h1, h2, ?_⟩
+    by_cases hc : 0 ≤ t ∧ t.toNat < n
+    · simp only [dif_pos hc] at h3 ⊢; exact h3
+    · simp only [dif_neg hc] at h3 ⊢; exact h3
+  · rintro ⟨t, x, h1, h2, h3⟩
+    refine ⟨t, x, h1, h2, ?_⟩
+    by_cases hc : 0 ≤ t ∧ t.toNat < n
+    · simp only [dif_pos hc] at h3 ⊢; exact h3
+    · simp only [dif_neg hc] at h3 ⊢; exact h3
+
+theorem pick_ind {P : Schema → Prop} (n : Nat) (body : Fin n → Schema) (dflt : Schema)
+    (hb : ∀ i, P (body i)) (hd : P dflt) (t : Int) : P (Schema.pick n body dflt t) := by
+  unfold Schema.pick; split
+  · exact hb _
+  · exact hd
 
 theorem schema_RT (s : Schema) : RT s.encode s.decode s.wf := by
   induction s with
@@ -141,12 +219,14 @@ theorem schema_RT (s : Schema) : RT s.encode s.decode s.wf := by
     rw [readVarInt_writeVarInt _ _ (by omega) (by omega)]
     simp only [show ¬ ((xs.length : Int) < 0) by omega, if_false, hmax, Int.toNat_natCast, Bool.false_eq_true]
     rw [readN_rt s.encode s.decode s.wf ih xs rest hw]
-  | sw tag body ih =>
+  | sw tag n body dflt ihb ihd =>
     intro v rest h
-    obtain ⟨t, x, rfl, ht, hx⟩ := h
-    simp only [Schema.encode, Schema.decode, Val.fst, Val.snd, Val.getInt, List.append_assoc]
-    rw [prim_RT tag _ _ ht]; simp only
-    rw [ih t x _ hx]
+    obtain ⟨t, x, rfl, ht, hx⟩ := (wf_sw tag n body dflt v).1 h
+    have ih := pick_ind (P := fun s => RT s.encode s.decode s.wf) n body dflt ihb ihd t
+    rw [encode_sw, decode_sw]
+    simp only [Val.fst, Val.snd, getInt_int, List.append_assoc]
+    rw [prim_RT tag _ _ ht]; simp only [getInt_int]
+    rw [ih x rest hx]
 
 theorem schema_encOk (s : Schema) (v : Val) (h : s.wf v) : s.encOk v = true := by
   induction s generalizing v with
@@ -171,12 +251,15 @@ theorem schema_encOk (s : Schema) (v : Val) (h : s.wf v) : s.encOk v = true := b
     obtain ⟨xs, rfl, hw, _, _⟩ := h
     simp only [Schema.encOk, elems_ofList, List.all_eq_true]
     exact fun x hx => ih x (hw x hx)
-  | sw tag body ih =>
-    obtain ⟨t, x, rfl, ht, hx⟩ := h
+  | sw tag n body dflt ihb ihd =>
+    obtain ⟨t, x, rfl, ht, hx⟩ := (wf_sw tag n body dflt v).1 h
     have h1 : tag.encOk (.int t) = true := by
       cases tag <;> try rfl
       · obtain ⟨b, hb, _⟩ := ht; cases hb
-    simp [Schema.encOk, Val.fst, Val.snd, Val.getInt, h1, ih t x hx]
+    have ih := pick_ind (P := fun s => ∀ v, s.wf v → s.encOk v = true) n body dflt ihb ihd t
+    rw [encOk_sw]
+    simp only [Val.fst, Val.snd, getInt_int, h1, Bool.true_and]
+    exact ih x hx
 
 theorem packet_RT (ps : PSchema) (v : Val) (h : ps.wf v) : ps.decode (ps.encode v) = .ok (v, []) := by
   unfold PSchema.wf at h
